@@ -230,3 +230,25 @@ package req
 //@ func (*socket).RemovePipe
 //@   loop 2 over s.contexts
 //@   loop 2 complete
+
+// ---- generated wrapper contracts (tools/gen_wrapper_contracts.py) ----
+//@ func NewSocket
+//@   ghost pr = result at call:NewProtocol#1
+//@   ghost so = result at call:MakeSocket#1
+//@   before call:NewProtocol#1 assert callee_is("protocol/req.NewProtocol")
+//@   before call:MakeSocket#1 assert arg0 == pr
+//@   ensures isnil(result1) && result0 == so
+// ---- end generated wrapper contracts ----
+
+// ---- round 12: the socket-level option calls are the default context's ----
+//@ func (*socket).GetOption
+//@   ghost v = result0 at call:GetOption#1
+//@   ghost e = result1 at call:GetOption#1
+//@   before call:GetOption#1 assert recv == s.defCtx && arg0 == option
+//@   ensures option == protocol.OptionRaw ==> isnil(result1) && result0 == iface(false)
+//@   ensures option != protocol.OptionRaw ==> result0 == v && result1 == e
+//@
+//@ func (*socket).SetOption
+//@   ghost e = result at call:SetOption#1
+//@   before call:SetOption#1 assert recv == s.defCtx && arg0 == option && arg1 == value
+//@   ensures result == e
